@@ -1118,6 +1118,8 @@ impl Assembler {
                 &&& (final(self).state is Ordered) == ordered
                 &&& ((old(self).state is Ordered) == ordered ==> *final(self) == *old(self))
                 &&& final(self).bytes_read == old(self).bytes_read && final(self).end == old(self).end
+                // nothing appears out of nowhere: an empty buffer stays empty
+                &&& (old(self).bufs().len() == 0 ==> final(self).bufs().len() == 0)
                 &&& forall|s: Seq<u8>| old(self).consistent(s) ==> final(self).consistent(s)
                 &&& forall|k: int| old(self).covers(k) && (old(self).state is Ordered ==> k >= old(self).bytes_read) ==> final(self).covers(k)
                 // entering unordered mode: what counts as received is exactly what was consumed plus what is buffered
